@@ -1245,7 +1245,7 @@ def _super(interp, args, kwargs, node):
 def _open(interp, args, kwargs, node):
     may_raise(interp, node, "OSError", ("open", desc(args[0])))
     r = interp.alloc(HOpaque("file", {"path": args[0], "mode": args[1] if len(args) > 1 else kwargs.get("mode", Const("r"))}))
-    interp.log("file.open", node, obj=r, path=args[0], mode=interp.deref(r).attrs["mode"])
+    interp.log("file.open", node, obj=r, path=args[0], mode=interp.deref(r).attrs["mode"], kwargs=dict(kwargs), nargs=len(args))
     return r
 
 
@@ -1840,6 +1840,30 @@ def fnode_method(interp, obj: FormulaV, name, args, kwargs, node):
 
 def opaque_method(interp, ref, o: HOpaque, name, args, kwargs, node):
     t = o.typ
+    if t == "ParseNode":
+        # a concrete parse tree node (rules build them from sample inputs): attrs: text (all token texts in order), kids
+        # {rule or token name: [nodes]}, labels {label: node}
+        kids = o.attrs.get("kids", {})
+        if name == "getText" and not args:
+            return o.attrs["text"]
+        if name in kids:
+            lst = kids[name]
+            if args:
+                if isinstance(args[0], Const) and isinstance(args[0].value, int):
+                    return lst[args[0].value] if 0 <= args[0].value < len(lst) else Const(None)
+                interp.err(node, f"parse tree child {name}() at a computed position")
+            if o.attrs.get("many", {}).get(name):
+                return interp.alloc(HList([("one", x) for x in lst]))
+            return lst[0] if lst else Const(None)
+        if name in o.attrs.get("absent", ()):
+            return interp.alloc(HList([])) if o.attrs.get("many", {}).get(name) else Const(None)
+        if name == "getChildCount" and not args:
+            return Const(o.attrs.get("nchildren", 0))
+        interp.err(node, f"parse tree method {name}() of a {o.attrs.get('rule')} node is not modelled")
+    if t == "Token":
+        if name == "getText" and not args:
+            return o.attrs["text"]
+        interp.err(node, f"token method {name}() is not modelled")
     if t == "RC2":
         if name == "compute":
             n = interp.fresh_id("m")
@@ -1890,7 +1914,10 @@ def opaque_method(interp, ref, o: HOpaque, name, args, kwargs, node):
         if name == "exists":
             return PredV(("exists-file", ref.oid))
         if name in ("read_text", "read_bytes"):
-            interp.log("file.read", node, path=ref)
+            interp.log("file.read", node, path=ref, how=name)
+            if name == "read_text" and not (kwargs.get("errors") is not None or len(args) > 1):
+                # decoding the file's bytes: fails on what is not text (a pickle)
+                may_raise(interp, node, "UnicodeDecodeError", ("pathlib.Path.read_text", ref.oid))
             return Sym((name, ref.oid), "str")
         if name in ("mkdir", "touch", "unlink", "rename", "replace", "write_text", "write_bytes", "rmdir", "chmod", "stat", "resolve", "iterdir"):
             # anything that touches the file system can fail (missing parent, a file in the way, permissions)
@@ -1912,6 +1939,10 @@ def obj_getattr(interp, ref, o, attr, node):
             return ExtV("pysmt.converter", ref)
         return None
     if isinstance(o, HOpaque):
+        if o.typ == "ParseNode":
+            if attr in o.attrs.get("labels", {}):
+                return o.attrs["labels"][attr]
+            return None
         if attr in o.attrs and attr not in ("target", "args"):
             return o.attrs[attr]
         if o.typ == "RC2" and attr == "cost":
